@@ -25,6 +25,24 @@ from . import paths
 from .sym import SymWorld
 
 
+def ids_form(d):
+    """the ids of Filter.keep / Filter.drop as the kind of iterable the description asks for (`Iterable[str]`)"""
+    ids, form = list(d['ids']), d.get('form', 'list')
+    if form == 'tuple':
+        return tuple(ids)
+    if form == 'set':
+        return set(ids)
+    if form == 'iter':
+        return iter(ids)
+    if form == 'gen':
+        return (i for i in ids)
+    if form == 'dupes':
+        return ids + ids[:1]
+    if form == 'keys':
+        return dict.fromkeys(ids).keys()
+    return ids
+
+
 class Builder:
     def __init__(self, world=None, roots=None):
         self.c = paths.use_repo()
@@ -164,9 +182,9 @@ class Builder:
         if k == 'filter':
             return c.Filter(self.fn(d, 'filter', d['f']))
         if k == 'keep':
-            return c.Filter.keep(d['ids'])
+            return c.Filter.keep(ids_form(d))
         if k == 'drop':
-            return c.Filter.drop(d['ids'])
+            return c.Filter.drop(ids_form(d))
         if k == 'check_ids':
             from connectome.layers.check_ids import CheckIds
             return CheckIds()
